@@ -432,15 +432,34 @@ def synthetic_split_record(sp):
     return rec
 
 
-def cross_rows(lin, T):
+def cross_rows_raw(lin):
     """the interpolation rows of the cross points as the mapper reports them (fresh call: reg_split_from edits its input in place)"""
     sc = lin.pix_sub_weights_split_cross
     mp, sz, wt = np.asarray(sc.mappings), np.asarray(sc.sizes), np.asarray(sc.weights, dtype=float)
-    rows = []
-    for k in range(mp.shape[0]):
-        s = int(sz[k])
-        rows.append({"pix": k // 4 + 1, "map": [int(x) + 1 for x in mp[k, :s]], "wt": fixed(wt[k, :s], T)})
-    return rows
+    return [(k // 4 + 1, [int(x) + 1 for x in mp[k, : int(sz[k])]], wt[k, : int(sz[k])].copy()) for k in range(mp.shape[0])]
+
+
+def cross_rows(raw, T):
+    return [{"pix": pix, "map": mp, "wt": fixed(wt, T)} for pix, mp, wt in raw]
+
+
+def split_magnitude(rows, W, wexact, n, T):
+    """largest |value| (sum of absolute terms plus tolerance) the trace specification forms for this record: used ONLY to choose
+    the fixed-point scales so that TLC's 32-bit integers cannot overflow (an overflow is a TLC error, never a verdict)"""
+    A = np.zeros((n, n))
+    for row in rows:
+        w = abs(W[row["pix"] - 1])
+        dom = 0 if wexact else w + 1
+        R, E = {}, {}
+        R[row["pix"]] = T
+        for a, x in zip(row["map"], row["wt"]):
+            R[a] = R.get(a, 0) - x
+            E[a] = E.get(a, 0) + 1
+        for a in R:
+            for b in R:
+                ra, rb, ea, eb = abs(R[a]), abs(R[b]), E.get(a, 0), E.get(b, 0)
+                A[a - 1, b - 1] += w * w * ra * rb + dom * (ra + ea) * (rb + eb) + w * w * (ra * eb + rb * ea + ea * eb)
+    return float(A.max()) if A.size else 0.0
 
 
 def split_record(name, verts, seed, adaptive):
@@ -467,29 +486,30 @@ def split_record(name, verts, seed, adaptive):
     except Exception as e:
         return failed("split", scheme, "delaunay", n, e)
     rec = base_record("split", scheme, "delaunay", n)
-    budget = 2.0 ** 30 / (4 * n)
-    if adaptive:
-        wmax = max(1.0, float(np.max(np.abs(w)))) if w.size else 1.0
-        st = math.sqrt(budget / 3.0) / wmax  # 4n (W^2+W+1) T^2 < 2^30 with W <= wmax*S
-        S = T = int(pow2_floor(math.sqrt(st)))
-        W = fixed(w, S)
-        wexact = False
-        Hs = np.rint(H * (S * S * T * T))
-        ST2 = S * S * T * T
-    else:
-        T = int(min(4096, pow2_floor(math.sqrt(budget / 3.0))))
-        S = 1
+    raw = cross_rows_raw(lin)
+    well = all(all(1 <= a <= n for a in mp) for _, mp, _ in raw) and all(np.all(np.isfinite(wt)) for _, _, wt in raw) and np.all(np.isfinite(w)) and w.shape == (n,)
+    if not adaptive:
         c = desc["coefficient"]
-        W, okw = ints_exact(w / c)  # reported weights are c * ones: normalised exactly (c is dyadic)
-        wexact = True
-        Hs = np.rint(H / (c * c) * (T * T))
-        ST2 = int(math.ceil(T * T / (c * c)))
+        Wn, okw = ints_exact(w / c)  # reported weights are c * ones: normalised exactly (c is dyadic)
         if not okw:
             rec["raised"], rec["err"] = True, "reported weights of ConstantSplit are not coefficient * ones"
             return rec
-    finite = bool(np.all(np.isfinite(H)) and H.ndim == 2 and np.max(np.abs(Hs)) < 2 ** 31)
+    # the largest scales (steps of sqrt 2) for which nothing the trace specification computes can leave 32 bits
+    for T in (4096, 2896, 2048, 1448, 1024, 724, 512, 362, 256, 181, 128, 90, 64, 45, 32, 22, 16, 11, 8):
+        if adaptive:
+            S, wexact = min(T, 181), False
+            W = fixed(w, S) if np.all(np.isfinite(w)) else []
+            scale, ST2 = float(S * S) * T * T, S * S * T * T
+        else:
+            S, wexact, W = 1, True, Wn
+            scale, ST2 = T * T / (c * c), int(math.ceil(T * T / (c * c)))
+        rows = cross_rows(raw, T) if well else []
+        if ST2 < 2 ** 30 and (not well or split_magnitude(rows, W, wexact, n, T) + ST2 * RHO + 4 < 2 ** 30):
+            break
+    Hs = np.rint(H * scale)
+    finite = bool(well and np.all(np.isfinite(H)) and H.ndim == 2 and np.max(np.abs(Hs)) < 2 ** 30)
     D, ok = ridge_by_homogeneity(H, H2, f, 8 * n) if finite else ([], False)
-    rec.update({"T": T, "rows": cross_rows(lin, T), "S": S, "W": W, "wexact": wexact, "exact": False, "ST2": int(ST2),
+    rec.update({"T": T, "rows": rows, "S": S, "W": W, "wexact": wexact, "exact": False, "ST2": int(ST2),
                 "Hs": Hs.astype(np.int64).tolist() if finite else [], "rows_n": shape2(H)[0], "cols_n": shape2(H)[1], "offlattice": not finite,
                 "wlen": int(w.shape[0]) if w.ndim == 1 else -1, "sym": sym_raw(H), "D": D, "ridge_ok": ok, "k": k,
                 "desc": dict(desc, verts=name)})
@@ -543,7 +563,7 @@ def fixed_record(seed, verts_family):
     S = int(min(2 ** 15, pow2_floor(math.sqrt(2.0 ** 29 / (2 * maxdeg * wmax * wmax + 1)))))
     finite = bool(H.ndim == 2 and np.all(np.isfinite(H)) and np.all(np.isfinite(w)) and np.max(np.abs(H)) * S * S < 2 ** 31)
     rec.update({"N": N, "S": S, "W": fixed(w, S) if finite else [], "wlen": int(w.shape[0]) if w.ndim == 1 else -1,
-                "Hs": fixed(H, S * S) if finite else [], "rows": shape2(H)[0] if finite else -1, "cols": shape2(H)[1], "sym": sym_raw(H), "desc": desc})
+                "Hs": fixed(H, S * S) if finite else [], "rows": shape2(H)[0], "cols": shape2(H)[1], "offlattice": not finite, "sym": sym_raw(H), "desc": desc})
     if adaptive:
         D, ok = ridge_by_homogeneity(H, H2, 16.0, 4 * maxdeg + 1) if finite else ([], False)
         rec.update({"D": D, "ridge_ok": ok, "k": 15})
@@ -580,7 +600,7 @@ def kernel_record(seed, verts_family, small):
     hmax = float(np.max(np.abs(H))) if finite else 1.0
     S = pow2_floor(2.0 ** 24 / hmax)
     Sp = 64.0 / hmax
-    rec.update({"S": int(S) if S >= 1 else 0, "Hs": fixed(H, S) if finite else [], "rows": shape2(H)[0] if finite else -1, "cols": shape2(H)[1],
+    rec.update({"S": int(S) if S >= 1 else 0, "Hs": fixed(H, S) if finite else [], "rows": shape2(H)[0], "cols": shape2(H)[1], "offlattice": not finite,
                 "wlen": int(w.shape[0]) if w.ndim == 1 else -1, "symraw": sym_raw(H), "Hp": fixed(H, Sp) if finite and n <= 4 else [], "desc": desc})
     return rec
 
@@ -712,7 +732,7 @@ def validate(ctx, recs, tag, chunk=300):
         k, ch = kc
         return ctx.validate_trace("Trace_Regularization", CFG_TRACE, ch, tag=f"{tag}_{k}", timeout=1500)[1]
 
-    with cf.ThreadPoolExecutor(max_workers=min(12, len(chunks) or 1)) as ex:
+    with cf.ThreadPoolExecutor(max_workers=min(8, len(chunks) or 1)) as ex:
         for rej in ex.map(one, list(enumerate(chunks))):
             rejects.extend(rej)
     for rj in rejects:
@@ -732,12 +752,13 @@ def run(ctx):
     family = vertex_sets(seed, quick)
     graphs = [graph_of(v) for _, v in family]
     splits = synthetic_splits(seed, quick)
-    shapes = [(h, w) for h in (3, 4, 5) for w in (3, 4, 5)]
-    c2q = [1, 4, 16, 36]
+    side = (3, 4, 5) if quick else (3, 4, 5, 6)
+    shapes = [(h, w) for h in side for w in side]
+    c2q = [1, 4, 16, 36] if quick else [1, 4, 9, 16, 36]
     zpairs = [(1, 36), (4, 16), (16, 4), (36, 1), (4, 4), (36, 36)] if quick else [(a, b) for a in c2q for b in c2q]
     wpairs = [(1, 2), (2, 1)]
     kinds = [(p, g) for p in sorted(KIND_OF_P) for g in (False, True)]
-    max_objs = 3
+    max_objs = 3 if quick else 4
     defs = "\n".join([
         "MCRectShapes == {" + ", ".join(f"<<{h},{w}>>" for h, w in shapes) + "}",
         "MCGraphs == " + tla(graphs),
@@ -756,8 +777,8 @@ def run(ctx):
     if len(insts) != expect or res.distinct != 2 * expect:
         raise core.MachineryError(f"Regularization.tla enumerated {len(insts)} instances / {res.distinct} states, expected {expect}")
     ctx.exhaustive = True
-    ctx.bounds = {"rectangular_meshes": "3..5 x 3..5 (all 9)", "delaunay_vertex_sets": {n: len(v) for n, v in family},
-                  "coefficients": "c in {1/2, 1, 2, 3}", "constant_zeroth_pairs_4c2_4cz2": [list(z) for z in zpairs], "adaptive_exact": "inner/outer in {(1,2),(2,1)} x 4 bright-pixel patterns",
+    ctx.bounds = {"rectangular_meshes": f"{side[0]}..{side[-1]} x {side[0]}..{side[-1]} (all {len(shapes)})", "delaunay_vertex_sets": {n: len(v) for n, v in family},
+                  "coefficients_4c2": c2q, "constant_zeroth_pairs_4c2_4cz2": [list(z) for z in zpairs], "adaptive_exact": "inner/outer in {(1,2),(2,1)} x 4 bright-pixel patterns",
                   "synthetic_split_instances": len(splits), "object_lists": f"all lists of length 1..{max_objs} over {len(kinds)} kinds (mapper 3x3, mapper 3x4, 1- and 2-function lists; with / without regularization)",
                   "ternary_vectors_up_to_n": 6, "exact_minors_up_to_n": 4}
     # ---- S->C jobs
@@ -774,18 +795,18 @@ def run(ctx):
     rng = np.random.default_rng(seed)
     nr = (lambda q, t: q if quick else t)
     jobs.append({"j": "chain", "seed": seed})
-    for _ in range(nr(60, 600)):
+    for _ in range(nr(100, 2000)):
         jobs.append({"j": "exact_rand", "seed": int(rng.integers(1, 2 ** 31)), "family": family})
-    for _ in range(nr(120, 1500)):
+    for _ in range(nr(200, 4000)):
         jobs.append({"j": "fixed", "seed": int(rng.integers(1, 2 ** 31)), "family": family})
     split_sets = [(n, v) for n, v in family if len(v) >= 4]  # the Voronoi diagram behind the cross points needs >= 4 vertices (qhull); fewer raise the documented MeshException
-    for rep in range(nr(2, 12)):
+    for rep in range(nr(3, 30)):
         for name, verts in split_sets:
             for adaptive in (False, True):
                 jobs.append({"j": "split", "name": name, "verts": verts, "seed": int(rng.integers(1, 2 ** 31)), "adaptive": adaptive})
-    for k in range(nr(60, 600)):
+    for k in range(nr(100, 2000)):
         jobs.append({"j": "kernel", "seed": int(rng.integers(1, 2 ** 31)), "family": family, "small": k % 2 == 0})
-    for _ in range(nr(40, 400)):
+    for _ in range(nr(60, 1500)):
         ln = int(rng.integers(1, 5))
         jobs.append({"j": "blocks", "seed": int(rng.integers(1, 2 ** 31)),
                      "kinds": [[int(sorted(KIND_OF_P)[int(rng.integers(0, 4))]), bool(rng.integers(0, 2))] for _ in range(ln)]})
